@@ -1,21 +1,21 @@
 (* Proofs/C11_Final3.v - RINEX 3: whole header (marker, types, TIME OF FIRST OBS) and the whole-file theorems *)
 From Coq Require Import Ascii String List Bool ZArith QArith Arith Lia.
 From Verif Require Import Lib.Text Lib.Decimal Lib.Fixed Lib.Dyadic Model.C11_Rinex Model.C11_Check
-     Spec.C11_RinexFormat Spec.C11_RinexFile Proofs.C11_Rinex Proofs.C11_File3 Proofs.C11_Hdr3 Proofs.C11_Hdr2.
+     Spec.C11_RinexFormat Spec.C11_RinexFile Proofs.C11_Rinex Proofs.C11_File3 Proofs.C11_Hdr3 Proofs.C11_Hdr2 Proofs.C11_File2 Proofs.C11_Extras.
 Import ListNotations.
 Local Open Scope nat_scope.
 Local Open Scope string_scope.
 
 Definition first_text (t : epoch_t) : string :=
   time_text (ep_y t) (ep_mo t) (ep_d t) (ep_h t) (ep_mi t) (dec_value (ep_s7 t) 7).
-Definition meta3 (f : file3) : list (string * mval) :=
-  [("marker_name", MStr (f3_marker f)); ("time_sys", MStr "GPS"); ("time_first_obs", MStr (first_text (f3_first f)))].
+Definition meta3 (f : file3) : list (string * mval) := hmeta (f3_x f) (f3_marker f) (first_text (f3_first f)).
 
 Lemma table_first3 : table_find "TIME OF FIRST OBS" G3.header_table = Some ("_parse_time_of_first_obs", false, first_obs_fields).
 Proof. reflexivity. Qed.
 
 Definition hdr_state (f : file3) (h : option string) : st :=
-  with_types (set_meta (meta3 f) st0) (all_types (f3_systypes f) []) (f3_systypes f) h.
+  {| meta := meta3 f; pos := hpos (f3_x f); types_all := all_types (f3_systypes f) []; num_types := None;
+     sys_types := f3_systypes f; hsys := h; rows := [] |}.
 
 Lemma systypes_sys_ok stt : systypes_ok stt -> Forall sys_ok stt /\ NoDup (map fst stt).
 Proof. intros [ND F]. split; [exact F|exact ND]. Qed.
@@ -23,28 +23,64 @@ Proof. intros [ND F]. split; [exact F|exact ND]. Qed.
 Lemma header3_ok f rest : file3_ok f ->
   exists h, run_header G3.header_table (render_header3 f ++ rest) st0 = Some (hdr_state f h, rest).
 Proof.
-  intros [Tm [Lm [Hst [Fo _]]]]. destruct (systypes_sys_ok _ Hst) as [Fs ND].
-  set (s0 := set_meta [("marker_name", MStr (f3_marker f))] st0).
-  destruct (systems_ok (f3_systypes f) s0 Fs ND) as [h Hh]; [intros k _ []|].
-  exists h. unfold render_header3.
-  replace ((hdr_line (f3_marker f) "MARKER NAME" :: concat (map types_lines_v3 (f3_systypes f)) ++ [first_obs_line (f3_first f); end_of_header]) ++ rest)%list
-    with ((hdr_line (f3_marker f) "MARKER NAME" :: concat (map types_lines_v3 (f3_systypes f)) ++ [first_obs_line (f3_first f)]) ++ end_of_header :: rest)%list
-    by (cbn [app]; rewrite <- !List.app_assoc; reflexivity).
-  rewrite (run_header_app G3.header_table _ st0 (hdr_state f h)).
-  - reflexivity.
-  - constructor.
-    + assert (K : label_ok "MARKER NAME") by (split; [discriminate|reflexivity]).
-      rewrite (end_marker_hdr_line _ _ Lm K). reflexivity.
-    + apply Forall_app. split.
-      * apply Forall_concat. apply Forall_forall. intros ls Hls. apply in_map_iff in Hls. destruct Hls as [p [E Hp]]. subst ls.
+  intros [Tm [Lm [Hst [Fo [[X0 [X1 [X2 X3]]] _]]]]]. destruct (systypes_sys_ok _ Hst) as [Fs ND].
+  set (Y := ep_y (f3_first f)) in *. set (x := f3_x f) in *.
+  set (s1 := apply_hrecs (hx0 x) st0).
+  set (s2 := set_meta (assoc_set "marker_name" (MStr (f3_marker f)) (meta s1)) s1).
+  set (s3 := apply_hrecs (hx1 x) s2).
+  destruct (apply_hrecs_fields (hx0 x) st0) as [A1 [B1 [C1 [D1 E1]]]]. fold s1 in A1, B1, C1, D1, E1.
+  destruct (apply_hrecs_fields (hx1 x) s2) as [A3 [B3 [C3 [D3 E3]]]]. fold s3 in A3, B3, C3, D3, E3.
+  assert (S3 : sys_types s3 = []) by (rewrite C3; unfold s2; cbn [sys_types set_meta]; rewrite C1; reflexivity).
+  destruct (systems_ok (f3_systypes f) s3 Fs ND) as [h Hh]; [intros k _; rewrite S3; intros []|].
+  set (s4 := with_types s3 (all_types (f3_systypes f) (types_all s3)) (sys_types s3 ++ f3_systypes f)%list h) in *.
+  set (s5 := apply_hrecs (hx2 x) s4).
+  set (s6 := set_meta (assoc_set "time_first_obs" (MStr (first_text (f3_first f))) (assoc_set "time_sys" (MStr "GPS") (meta s5))) s5).
+  set (s7 := apply_hrecs (hx3 x) s6).
+  exists h. unfold render_header3. fold x.
+  set (ls := (rx (hx0 x) ++ hdr_line (f3_marker f) "MARKER NAME" :: rx (hx1 x) ++ concat (map types_lines_v3 (f3_systypes f))
+              ++ rx (hx2 x) ++ first_obs_line (f3_first f) :: rx (hx3 x))%list).
+  replace ((rx (hx0 x) ++ hdr_line (f3_marker f) "MARKER NAME" :: rx (hx1 x) ++ concat (map types_lines_v3 (f3_systypes f))
+            ++ rx (hx2 x) ++ first_obs_line (f3_first f) :: rx (hx3 x) ++ [end_of_header]) ++ rest)%list
+    with (ls ++ end_of_header :: rest)%list
+    by (unfold ls; repeat (rewrite <- List.app_assoc; cbn [app]); reflexivity).
+  rewrite (run_header_app G3.header_table ls st0 s7).
+  - cbn [run_header]. change (header_line G3.header_table end_of_header s7) with (Some s7). cbv beta iota.
+    change (is_end_of_header end_of_header) with true. cbv iota. f_equal. f_equal.
+    destruct (meta_apply_hrecs (hx0 x) st0) as [M1 P1]. fold s1 in M1, P1.
+    destruct (meta_apply_hrecs (hx1 x) s2) as [M3 P3]. fold s3 in M3, P3.
+    destruct (meta_apply_hrecs (hx2 x) s4) as [M5 P5]. fold s5 in M5, P5.
+    destruct (meta_apply_hrecs (hx3 x) s6) as [M7 P7]. fold s7 in M7, P7.
+    destruct (apply_hrecs_fields (hx2 x) s4) as [A5 [B5 [C5 [D5 E5]]]]. fold s5 in A5, B5, C5, D5, E5.
+    destruct (apply_hrecs_fields (hx3 x) s6) as [A7 [B7 [C7 [D7 E7]]]]. fold s7 in A7, B7, C7, D7, E7.
+    apply st_ext.
+    + rewrite M7. unfold s6. cbn [meta set_meta]. rewrite M5. unfold s4. cbn [meta with_types]. rewrite M3. unfold s2. cbn [meta set_meta].
+      rewrite M1. reflexivity.
+    + rewrite P7. unfold s6. cbn [pos set_meta]. rewrite P5. unfold s4. cbn [pos with_types]. rewrite P3. unfold s2. cbn [pos set_meta].
+      rewrite P1. reflexivity.
+    + rewrite A7. unfold s6. cbn [types_all set_meta]. rewrite A5. unfold s4. cbn [types_all with_types]. rewrite A3. unfold s2.
+      cbn [types_all set_meta]. rewrite A1. reflexivity.
+    + rewrite B7. unfold s6. cbn [num_types set_meta]. rewrite B5. unfold s4. cbn [num_types with_types]. rewrite B3. unfold s2.
+      cbn [num_types set_meta]. rewrite B1. reflexivity.
+    + rewrite C7. unfold s6. cbn [sys_types set_meta]. rewrite C5. unfold s4. cbn [sys_types with_types]. rewrite S3. reflexivity.
+    + rewrite D7. unfold s6. cbn [hsys set_meta]. rewrite D5. reflexivity.
+    + rewrite E7. unfold s6. cbn [rows set_meta]. rewrite E5. unfold s4. cbn [rows with_types]. rewrite E3. unfold s2. cbn [rows set_meta].
+      rewrite E1. reflexivity.
+  - unfold ls. apply Forall_app. split; [apply (hrecs_not_end Y), X0|]. constructor.
+    + assert (K : label_ok "MARKER NAME") by (split; [discriminate|reflexivity]). rewrite (end_marker_hdr_line _ _ Lm K). reflexivity.
+    + apply Forall_app. split; [apply (hrecs_not_end Y), X1|]. apply Forall_app. split.
+      * apply Forall_concat. apply Forall_forall. intros l Hl. apply in_map_iff in Hl. destruct Hl as [p [E Hp]]. subst l.
         apply types_lines_not_end. apply (proj1 (Forall_forall _ _) Fs p Hp).
-      * constructor; [|constructor].
+      * apply Forall_app. split; [apply (hrecs_not_end Y), X2|]. constructor; [|apply (hrecs_not_end Y), X3].
         assert (K : label_ok "TIME OF FIRST OBS") by (split; [discriminate|reflexivity]).
         unfold first_obs_line. rewrite (end_marker_hdr_line _ _); [reflexivity| |exact K].
         rewrite (len_cat_widths _ _ (first_obs_widths _ Fo)). simpl. lia.
-  - cbn [hfold]. rewrite (marker_line_ok _ st0 Tm Lm). cbv beta iota. rewrite hfold_app.
-    change (set_meta (assoc_set "marker_name" (MStr (f3_marker f)) (meta st0)) st0) with s0. rewrite Hh. cbn [hfold].
-    rewrite (first_obs_ok_gen G3.header_table _ _ table_first3 Fo). reflexivity.
+  - unfold ls. rewrite hfold_app. unfold rx. rewrite (hrecs_ok G3.header_table has_extras_G3 Y _ st0 X0). fold s1.
+    cbn [hfold]. rewrite (marker_line_ok _ s1 Tm Lm). fold s2. cbv beta iota.
+    rewrite hfold_app, (hrecs_ok G3.header_table has_extras_G3 Y _ s2 X1). fold s3.
+    rewrite hfold_app, Hh. fold s4.
+    rewrite hfold_app, (hrecs_ok G3.header_table has_extras_G3 Y _ s4 X2). fold s5.
+    cbn [hfold]. rewrite (first_obs_ok_gen G3.header_table _ s5 table_first3 Fo). fold s6. cbv beta iota.
+    apply (hrecs_ok G3.header_table has_extras_G3 Y _ s6 X3).
 Qed.
 
 (* ------------------------------------------------------------------------------------------ the whole file *)
@@ -52,7 +88,7 @@ Definition file_rows3 (rate : option Q) (f : file3) : list row :=
   body_rows rate (f3_systypes f) (all_types (f3_systypes f) []) (f3_marker f) (f3_epochs f).
 
 Definition final_state3 (rate : option Q) (f : file3) : st :=
-  {| meta := meta3 f; pos := None; types_all := all_types (f3_systypes f) []; num_types := None;
+  {| meta := meta3 f; pos := hpos (f3_x f); types_all := all_types (f3_systypes f) []; num_types := None;
      sys_types := f3_systypes f; hsys := None; rows := rev (file_rows3 rate f) |}.
 
 Lemma finish_v3_ext s s' : meta s = meta s' -> pos s = pos s' -> types_all s = types_all s' -> sys_types s = sys_types s' ->
@@ -63,15 +99,15 @@ Lemma rinex3_file_roundtrip_l rate f : file3_ok f ->
   parse_v3 G3.header_table G3.obs_table rate (render_file3 f) = finish_v3 (final_state3 rate f).
 Proof.
   intros Ok. destruct (header3_ok f (render_body_v3 (f3_epochs f)) Ok) as [h Hh].
-  destruct Ok as [Tm [Lm [Hst [_ Fe]]]]. destruct Hst as [ND Fs].
+  destruct Ok as [Tm [Lm [Hst [_ [_ Fe]]]]]. destruct Hst as [ND Fs].
   unfold parse_v3, render_file3. rewrite Hh.
   assert (L240 : Forall (fun p : string * list string => List.length (snd p) < 240) (f3_systypes f)).
   { apply Forall_forall. intros p Hp. apply (proj1 (Forall_forall _ _) Fs p Hp). }
   rewrite (body3_run rate (f3_systypes f) (all_types (f3_systypes f) []) (f3_marker f) ND L240 (f3_epochs f) (hdr_state f h) cache0);
-    [| repeat split | exact Fe].
+    [| split; [unfold meta_str; cbn [hdr_state meta]; unfold meta3; rewrite hmeta_marker; reflexivity|split; reflexivity] | exact Fe].
   destruct (add_rows_fields (file_rows3 rate f) (hdr_state f h)) as [A1 [A2 [A3 A4]]]. unfold file_rows3 in A1, A2, A3, A4.
   apply finish_v3_ext; [rewrite A1|rewrite A2|rewrite A3|rewrite A4|]; try reflexivity.
-  rewrite rows_add_rows. cbn [hdr_state with_types rows set_meta st0]. rewrite List.app_nil_r. reflexivity.
+  rewrite rows_add_rows. cbn [hdr_state rows]. rewrite List.app_nil_r. reflexivity.
 Qed.
 
 (* one row per (epoch on the grid, satellite) in file order; every column has that many entries *)
@@ -81,7 +117,9 @@ Lemma rinex3_rows_l rate f : file3_ok f -> file_rows3 rate f <> [] ->
             Forall (fun col => List.length (snd col) = List.length (o_rows r)) (o_obs r).
 Proof.
   intros Ok Ne. rewrite (rinex3_file_roundtrip_l rate f Ok). unfold finish_v3.
-  change (meta_str "time_sys" (final_state3 rate f)) with (Some "GPS"). unfold final_state3. cbn [rows sys_types types_all meta pos].
+  assert (G : meta_str "time_sys" (final_state3 rate f) = Some "GPS")
+    by (unfold meta_str, final_state3, meta3; cbn [meta]; rewrite hmeta_gps; reflexivity).
+  rewrite G. unfold final_state3. cbn [rows sys_types types_all meta pos].
   rewrite rev_involutive. destruct (file_rows3 rate f) as [|r0 rs] eqn:E; [contradiction|].
   eexists. split; [reflexivity|]. cbn [o_rows o_obs]. split; [reflexivity|].
   apply Forall_forall. intros col Hc. apply in_map_iff in Hc. destruct Hc as [t [Et _]]. subst col. cbn [snd].
